@@ -246,6 +246,7 @@ def h_infer_super():
                 and adds[0][3] is True and adds[0][4] is cls(it, PDR, R)
             return z3.BoolVal(ok)
         vm.spec.loops[(f"{R}.infer_super_relations", 0)] = LoopSpec(inv=inv)
+        vm.spec.stream_loops["super_relations"] = vm.spec.loops[(f"{R}.infer_super_relations", 0)]
         vm.call_method(r, "infer_super_relations")
         ctx.check(f"{R}.infer_super_relations::every-super-relation-is-visited", z3.BoolVal(not any(n[0] == "early-exit" for n in ctx.notes)))
         ctx.cover("exit")
@@ -427,6 +428,8 @@ def h_transitive():
             return inv
         vm.spec.loops[(f"{R}.infer_transitive_relations_outgoing_from_source", 0)] = LoopSpec(inv=inv_for("out"))
         vm.spec.loops[(f"{R}.infer_transitive_relations_incoming_to_target", 0)] = LoopSpec(inv=inv_for("in"))
+        vm.spec.stream_loops["out-edges"] = vm.spec.loops[(f"{R}.infer_transitive_relations_outgoing_from_source", 0)]
+        vm.spec.stream_loops["in-edges"] = vm.spec.loops[(f"{R}.infer_transitive_relations_incoming_to_target", 0)]
         which = ctx.choice(3, "entry")
         if which == 0:
             vm.call_method(r, "infer_transitive_relations")
